@@ -204,6 +204,7 @@ class ProbeNode(BaseNode):
         self.use_callback = use_callback  # io_callback (works jitted and un-jitted)
         self.delay_from_params = []  # input names whose delay (ticks) is the node's param p
         self.delays_override = {}  # input name -> delay (s) returned by init_delays (trainable delays, C10)
+        self.ts_bump = 0.0  # the step function time-stamps the step state it returns (ts + bump): legal, ignored under the simulated clock
 
     def init_delays(self, rng=None, graph_state=None):
         d = dict(super().init_delays(rng, graph_state))
@@ -247,6 +248,8 @@ class ProbeNode(BaseNode):
                 _host_log(self.nid, names, eps, seq, ss.ts, ss.rng, ss.params.p, h, new_h, *flat)
         out = probe_out(self.nid, eps, seq, new_h)
         new_ss = ss.replace(rng=new_rng, state=ProbeState(h=new_h))
+        if self.ts_bump:
+            new_ss = new_ss.replace(ts=ss.ts + self.ts_bump)
         return new_ss, out
 
 
